@@ -523,7 +523,7 @@ func (fg *FnGen) evalIdent(name string, env *CEnv) *Val {
 		}
 		panic(unsupported("local(" + name + "): no such variable here"))
 	}
-	if _, isParam := fg.params[name]; isParam && (env.loop != nil || env.atBlock != nil) && !env.noLocals && env.calleePkg == "" && fg.paramReassigned(name) {
+	if _, isParam := fg.params[name]; isParam && !fg.isFreeVarName(name) && (env.loop != nil || env.atBlock != nil) && !env.noLocals && env.calleePkg == "" && fg.paramReassigned(name) {
 		// a parameter that the function assigns: inside the body (loop invariants, at-call clauses) the name denotes
 		// the variable's current value; in requires/ensures it denotes the entry value
 		if v, ok := env.lookupLocal(name); ok {
@@ -577,6 +577,11 @@ func (fg *FnGen) evalIdent(name string, env *CEnv) *Val {
 			if !isFree {
 				return v
 			}
+		}
+		if v, ok := fg.params[name]; ok && fg.isFreeVarName(name) {
+			// a variable captured by reference is a memory cell: its value is what the cell holds in the state at hand
+			// (a debug binding of the name would be a load made earlier - stale after an assignment)
+			return fg.loadIn(env.st, fg.derefQuiet(v))
 		}
 		if !env.noLocals {
 			if v, ok := env.lookupLocal(name); ok {
@@ -1411,6 +1416,16 @@ func (fg *FnGen) evalMod(e CExpr, env *CEnv) []modEntry {
 }
 
 // paramNeverReassigned: the parameter's spill cell (if any) is stored exactly once (the initial spill).
+// isFreeVarName: a variable captured by reference is a memory cell; it is always read through the cell.
+func (fg *FnGen) isFreeVarName(name string) bool {
+	for _, fv := range fg.fn.FreeVars {
+		if fv.Name() == name {
+			return true
+		}
+	}
+	return false
+}
+
 // paramReassigned: the function assigns a new value to the parameter (some binding of the name is not the parameter
 // itself: a phi or a computed value; or the spilled cell is stored more than once).
 func (fg *FnGen) paramReassigned(name string) bool {
